@@ -1474,6 +1474,21 @@ impl<'a, 'b> Gen<'a, 'b> {
         if !ok {
             return None;
         }
+        // a defmacro receives its operands as values and returns code: a string operand comes
+        // back as a bare word, so a string that reads as something else ("0x41") changes
+        // meaning -- a limit of the old macro system the language documents (hence defmac), kept
+        // out of the operands by construction (only top-level operands; nested ones are quoted
+        // inside larger expressions that never reach the reader as bare words)
+        let args: Vec<Expr> = args
+            .into_iter()
+            .map(|a| match a {
+                Expr::Str(b) if b.starts_with(b"0x") || b.first().map(|c| c.is_ascii_digit() || *c == b'-').unwrap_or(false) => {
+                    self.feat("excluded:number-like-string-as-macro-operand");
+                    Expr::Int(BigInt::from(7))
+                }
+                other => other,
+            })
+            .collect();
         self.feat("macro-call");
         Some(Expr::MacroCall { name: m.name.clone(), args })
     }
